@@ -96,6 +96,11 @@ impl<H: HashChain> HssPrivateKey<H> {
     ) -> Option<MutableExpandedAuxData<'a>> {
         let aux_data = aux_data?;
 
+        // Nothing can be stored in (or read from) an empty buffer
+        if aux_data.is_empty() {
+            return None;
+        }
+
         if is_aux_data_used {
             return hss_expand_aux_data::<H>(Some(aux_data), Some(private_key.seed.as_slice()));
         }
